@@ -74,14 +74,20 @@ AAfterDrop(ch) == afterDrop' = ch /\ UNCHANGED <<cfg, kind, base, pre, libpipes,
 
 \* ---------------------------------------------------------------- the watchdog's wait-for evidence
 \* holder = <<pid, inodes held above fd 2, "read"|"write"|"other", inode blocked on, parent holds the peer end,
-\*            somebody else holds the peer end>>
-\* A proven deadlock: the library waits (waitpid) for a child that is itself blocked on a pipe whose other
-\* end only the library's own process holds.
+\*            somebody else holds the peer end, pids of the other children holding the peer end>>
+\* A proven deadlock: the library waits (waitpid) for a child that can never move again -- it is blocked on a
+\* pipe, and so is (transitively) every other child holding the other end of that pipe, down to a pipe whose
+\* other end the library's own process holds while it waits.
+RECURSIVE StuckFix(_, _)
+StuckFix(S, w) ==
+  LET H(p) == w.holders[CHOOSE i \in 1..Len(w.holders) : w.holders[i][1] = p]
+      S2 == {p \in S : SetOf(H(p)[7]) \subseteq S /\ (H(p)[5] \/ H(p)[7] # <<>>)}
+  IN IF S2 = S THEN S ELSE StuckFix(S2, w)
+StuckSet(w) == StuckFix({w.holders[i][1] : i \in {j \in 1..Len(w.holders) : w.holders[j][3] \in {"read", "write"}}}, w)
 ProvenDeadlock(w) ==
-  \E i \in 1..Len(w.holders) :
-    LET h == w.holders[i] IN
-    /\ h[3] \in {"read", "write"} /\ h[5] /\ ~h[6]
-    /\ h[1] \in SetOf(w.parent_waits)
+  LET S == StuckSet(w) IN
+  /\ \E c \in S : c \in SetOf(w.parent_waits)
+  /\ \E i \in 1..Len(w.holders) : w.holders[i][1] \in S /\ w.holders[i][5]
 \* or: the library is blocked reading a pipe (the launch-status channel) that a child keeps open above fd 2
 ProvenLeakHang(w) ==
   \E i \in 1..Len(w.holders) : SetOf(w.holders[i][2]) \cap libpipes # {}
